@@ -352,7 +352,12 @@ CHECKS["C02"]["text"] = CHECKS["C02"]["text"].replace(
     "names resolved in the scope of the element that carries them) and tied to the code by reading every written record "
     "element with the library and with the model. Proved (C02_record_roundtrip): writer model then reader model gives back "
     "a record of the same class and identifier holding exactly the values the writer was given, a subtype element's pair "
-    "coming back as the asserted type. nsmap generation and bundles are not modelled (partial).")
+    "coming back as the asserted type; container level (C02_container_roundtrip): the elements of a container's records, read "
+    "in order, append exactly those records. Scope (XmlScope.v): the prefix map serialize_bundle attaches to the document "
+    "element and to every bundleContent is modelled (nsmap_of) and tied to lxml's nsmap of the written elements per run; "
+    "proved (C02_scope_*): every name a container's manager binds is read back in that scope as exactly that name, for every "
+    "manager of every namespace history (invariant InvR, C02_reachable_managers_registered). The whole written tree "
+    "(xml_document) is tied to the implementation per run. The reader's bundleContent dispatch is not modelled (partial).")
 CHECKS["C02"]["technique"] = ("Coq proofs at value and record level over models of the writer and of the reader + per-record "
                               "correspondences (written element, records read, element names, value grid) + strict round-trip oracle")
 
@@ -379,6 +384,22 @@ CHECKS["C07"]["technique"] = ("Coq proofs: by computation over finite domains (p
                               "and attribute level (literal mapping, URI resolution) + structural and value correspondences "
                               "+ round-trip oracle with shuffled quad orders")
 assert "C07_value_" in CHECKS["C07"]["text"] and "350 attribute" in CHECKS["C07"]["text"] and "C07_element_roundtrip" in CHECKS["C07"]["text"]
+
+
+CHECKS["C10"]["text"] = CHECKS["C10"]["text"].replace(
+    "Bundle maps / bundleContent level: "
+    "run, not proved (partial).",
+    "(6) PROV-XML document level (C10_xml_document): XmlSpec.read of the whole tree the model of serialize() builds (document "
+    "element, records, one bundleContent per bundle with its own prefix map; tied to the written tree per run) is the document's "
+    "content — its records in order, then every bundle under the URI of its prov:id. (7) PROV-JSON document level "
+    "(C10_json_document): JsonSpec.read of the whole tree the library writes — main members, then the bundle map — is the "
+    "document's records (grouped order) and every bundle's records under the URI its key denotes in the bundle's scope (its "
+    "prefix block on top of the document's); keys pairwise different (finding C10-F4 otherwise). Both document-level theorems "
+    "are over the model of the writers, tied to the written trees per run; the per-run spec readers decide the implementation's "
+    "real output (partial only in the premises: names the tables resolve, values of the kinds the value level covers).")
+
+
+assert "C10_xml_document" in CHECKS["C10"]["text"] and "C10_json_document" in CHECKS["C10"]["text"] and "C02_scope_" in CHECKS["C02"]["text"]
 
 
 def main():
